@@ -26,6 +26,7 @@ func NewCluster(n int, tcp bool) *Cluster {
 	} else {
 		l = onet.NewLocalTest(Suite)
 	}
+	l.Check = onet.CheckNone
 	c := &Cluster{L: l}
 	c.Servers = l.GenServers(n)
 	c.Roster = l.GenRosterFromHost(c.Servers...)
